@@ -32,9 +32,37 @@ GET_ALLOCS = ('placement.objects.allocation:get_all_by_consumer_id',
               'placement.objects.allocation:get_all_by_resource_provider')
 
 
-def _gen_compare_ifs(ctx, f, param='consumer_generation'):
+def gen_param(ctx, f):
+    """The parameter of f that callers bind to the body field
+    'consumer_generation' (by position at every call site)."""
+    idx = None
+    for g in ctx.prog.funcs:
+        for s_ in ctx.cg.calls_in(g):
+            if f not in s_.callees:
+                continue
+            here = set()
+            for i, a in enumerate(s_.node.args):
+                e = a
+                if isinstance(a, ast.Name):
+                    d = c05.single_def(g, a.id)
+                    if d is not None:
+                        e = d.value
+                if any(isinstance(x, ast.Constant)
+                       and x.value == 'consumer_generation'
+                       for x in ast.walk(e)):
+                    here.add(i)
+            idx = here if idx is None else (idx & here)
+    if idx and len(idx) == 1:
+        i = list(idx)[0]
+        return f.params[i] if i < len(f.params) else None
+    return None
+
+
+def _gen_compare_ifs(ctx, f, param=None):
     """If statements ``X.generation != <param>`` raising the 409."""
     out = []
+    if param is None:
+        param = gen_param(ctx, f)
     for n in own_nodes(f.node):
         if not (isinstance(n, ast.If) and isinstance(n.test, ast.Compare)
                 and len(n.test.ops) == 1 and isinstance(
@@ -126,7 +154,7 @@ def r62(ctx, R):
             if isinstance(n, ast.If) and isinstance(n.test, ast.Compare) \
                     and len(n.test.ops) == 1 and isinstance(
                         n.test.ops[0], ast.IsNot) and src(
-                            n.test.left) == 'consumer_generation' and src(
+                            n.test.left) == gen_param(ctx, f) and src(
                                 n.test.comparators[0]) == 'None':
                 rs = [s for s in n.body if isinstance(s, ast.Raise)]
                 if len(rs) == 1 and len(n.body) == 1 and not n.orelse and \
@@ -269,6 +297,35 @@ def r63(ctx, R):
          nontrivial=False)
 
 
+def _checked_dict_params(ctx, f):
+    """Parameters of f that every caller binds to the uuid -> consumer dict
+    returned (first) by inspect_consumers."""
+    INSPECT = 'placement.handlers.allocation:inspect_consumers'
+    idx = None
+    sites = 0
+    for g in ctx.prog.funcs:
+        for s_ in ctx.cg.calls_in(g):
+            if f not in s_.callees:
+                continue
+            sites += 1
+            here = set()
+            for i, a in enumerate(s_.node.args):
+                if not isinstance(a, ast.Name):
+                    continue
+                for n in own_nodes(g.node):
+                    if isinstance(n, ast.Assign) and isinstance(
+                            n.value, ast.Call) and INSPECT in C.call_name(
+                                ctx, g, n.value) and isinstance(
+                                    n.targets[0], ast.Tuple) and \
+                            n.targets[0].elts and src(
+                                n.targets[0].elts[0]) == a.id:
+                        here.add(i)
+            idx = here if idx is None else (idx & here)
+    if not sites or not idx:
+        return set()
+    return {f.params[i] for i in idx if i < len(f.params)}
+
+
 def _checked_consumer_names(ctx, f):
     """Names in f bound to a generation-checked consumer."""
     out = set()
@@ -282,8 +339,8 @@ def _checked_consumer_names(ctx, f):
                     t.elts[0], ast.Name):
                 out.add(t.elts[0].id)
         if isinstance(v, ast.Subscript) and isinstance(
-                v.value, ast.Name) and v.value.id == 'consumers' and \
-                'consumers' in f.params:
+                v.value, ast.Name) and v.value.id in _checked_dict_params(
+                    ctx, f):
             for t in n.targets:
                 if isinstance(t, ast.Name):
                     out.add(t.id)
